@@ -3,7 +3,7 @@
 package main
 
 import (
-	"fmt"
+	"encoding/json"
 	"os"
 )
 
@@ -77,13 +77,42 @@ func makeBoxes(tier string) []*Box {
 			Depth: 400, MaxDev: 2, Kinds: kinds(evCampaign, evPropose, evHeartbeat, evCrash, evRestart), Share: 40,
 		})
 	}
-	if os.Getenv("RAFTMC_TRIAL") != "" {
-		// development aid: RAFTMC_TRIAL="T P crashes hb compacts maxdev"
-		var t, p, c, h, k, d int
-		fmt.Sscan(os.Getenv("RAFTMC_TRIAL"), &t, &p, &c, &h, &k, &d)
-		bs = append(bs, &Box{ID: "T", Mode: "B", What: "trial", Cfg: cfgPlain(3, false),
-			Bud:   Budget{MaxTerm: uint64(t), Proposals: p, Drops: 9, Dups: 9, Crashes: c, Heartbeats: h, Compacts: k},
-			Depth: 400, MaxDev: d, Kinds: core, Share: 40})
+	if tj := os.Getenv("RAFTMC_TRIAL"); tj != "" {
+		// development aid: a box given as JSON, e.g.
+		// {"mode":"B","cfg":"plain","members":3,"joiner":false,"budgets":{...},"max_deviations":1,"kinds":"CPHKRS"}
+		var t struct {
+			Mode    string `json:"mode"`
+			Cfg     string `json:"cfg"`
+			Members int    `json:"members"`
+			Joiner  bool   `json:"joiner"`
+			Bud     Budget `json:"budgets"`
+			MaxDev  int    `json:"max_deviations"`
+			Depth   int    `json:"max_depth"`
+			Kinds   string `json:"kinds"`
+		}
+		if err := json.Unmarshal([]byte(tj), &t); err != nil {
+			panic(err)
+		}
+		b := &Box{ID: "T", Mode: t.Mode, What: "trial", Bud: t.Bud, MaxDev: t.MaxDev, Depth: t.Depth, Share: 40}
+		switch t.Cfg {
+		case "pvcq":
+			b.Cfg = cfgPVCQ(t.Members, t.Joiner)
+		case "one":
+			b.Cfg = cfgOnePerMsg(t.Members, t.Joiner)
+		default:
+			b.Cfg = cfgPlain(t.Members, t.Joiner)
+		}
+		if b.Depth == 0 {
+			b.Depth = 400
+		}
+		for _, ch := range t.Kinds {
+			for k := range evShort {
+				if evShort[k] == string(ch) {
+					b.Kinds |= 1 << uint(k)
+				}
+			}
+		}
+		bs = append(bs, b)
 	}
 	return bs
 }
